@@ -20,20 +20,20 @@ type zkRead struct {
 }
 
 type iterRec struct {
-	inc      string
-	state    string
-	next     string
-	n        int
-	startSeq uint64
-	startT   time.Duration
-	endSeq   uint64
-	endT     time.Duration
+	inc       string
+	state     string
+	next      string
+	n         int
+	startSeq  uint64
+	startT    time.Duration
+	endSeq    uint64
+	endT      time.Duration
 	ownedLock bool // owned the lock znode at some instant of the window (so far)
-	reads    []zkRead
-	sql      []*SQLEvent
-	zkWrites []*ZKEvent
-	faults   int
-	open     bool
+	reads     []zkRead
+	sql       []*SQLEvent
+	zkWrites  []*ZKEvent
+	faults    int
+	open      bool
 }
 
 type ackRec struct {
@@ -53,24 +53,24 @@ type Monitors struct {
 	primary    map[string]bool
 
 	// zk-derived truth
-	lockOwner    string // incarnation owning /test/manager ("" = none)
-	lockSess     int64
-	lockChanges  int
-	lockSince    time.Duration
-	master       string
-	active       []string
-	activeSet    bool
-	switchRaw    string
-	maintRaw     string
-	recovery     map[string]bool
-	sessInc      map[int64]string
-	sessAlive    map[int64]bool
+	lockOwner   string // incarnation owning /test/manager ("" = none)
+	lockSess    int64
+	lockChanges int
+	lockSince   time.Duration
+	master      string
+	active      []string
+	activeSet   bool
+	switchRaw   string
+	maintRaw    string
+	recovery    map[string]bool
+	sessInc     map[int64]string
+	sessAlive   map[int64]bool
 
 	iters   map[string]*iterRec // current open iteration per incarnation
 	allIter []*iterRec
 
-	acks     []ackRec
-	acked    GTIDSet
+	acks           []ackRec
+	acked          GTIDSet
 	pendingCommits int
 
 	faultsTotal int
@@ -388,6 +388,7 @@ func (m *Monitors) touch(src string, sv *Server) {
 }
 
 func (m *Monitors) onDaemonStart(d *Daemon) {}
+
 type daemonGoneOracle interface{ onDaemonGone(inc string) }
 
 func (m *Monitors) onDaemonKill(d *Daemon) {
